@@ -77,6 +77,38 @@ fn hold_here() {
     })
 }
 
+// ---- a caller waker whose clone() is NOT a bitwise copy of itself: a borrowed view (clone hands out an owned handle
+// with another vtable and data pointer; dropping or waking the view by value releases nothing) - what cglue's own
+// per-poll waker is, and what any stack-allocated executor waker looks like ----
+struct BorrowedW {
+    inner: Arc<CountingWaker>,
+}
+use std::task::{RawWaker, RawWakerVTable};
+static B_VT: RawWakerVTable = RawWakerVTable::new(b_clone, b_wake_by_ref, b_wake_by_ref, b_drop);
+static O_VT: RawWakerVTable = RawWakerVTable::new(o_clone, o_wake, o_wake_by_ref, o_drop);
+unsafe fn b_clone(p: *const ()) -> RawWaker {
+    let b = &*(p as *const BorrowedW);
+    RawWaker::new(Arc::into_raw(b.inner.clone()) as *const (), &O_VT)
+}
+unsafe fn b_wake_by_ref(p: *const ()) {
+    Wake::wake_by_ref(&(*(p as *const BorrowedW)).inner)
+}
+unsafe fn b_drop(_: *const ()) {}
+unsafe fn o_clone(p: *const ()) -> RawWaker {
+    Arc::increment_strong_count(p as *const CountingWaker);
+    RawWaker::new(p, &O_VT)
+}
+unsafe fn o_wake(p: *const ()) {
+    Wake::wake(Arc::from_raw(p as *const CountingWaker))
+}
+unsafe fn o_wake_by_ref(p: *const ()) {
+    let a = std::mem::ManuallyDrop::new(Arc::from_raw(p as *const CountingWaker));
+    Wake::wake_by_ref(&*a)
+}
+unsafe fn o_drop(p: *const ()) {
+    drop(Arc::from_raw(p as *const CountingWaker))
+}
+
 type Reply = Result<(), String>;
 
 struct Chan {
@@ -251,7 +283,19 @@ impl World {
         // thread 1: the poller
         {
             let sh2 = sh.clone();
-            let caller_wakers: Vec<Waker> = origs.iter().map(|o| Waker::from(o.clone())).collect();
+            // the first caller waker is an ordinary Arc waker, the second a borrowed view of one
+            let caller_wakers: Vec<Waker> = origs
+                .iter()
+                .enumerate()
+                .map(|(i, o)| {
+                    if i == 1 {
+                        let b: &'static BorrowedW = Box::leak(Box::new(BorrowedW { inner: o.clone() }));
+                        unsafe { Waker::from_raw(RawWaker::new(b as *const BorrowedW as *const (), &B_VT)) }
+                    } else {
+                        Waker::from(o.clone())
+                    }
+                })
+                .collect();
             let mut obj = match flavour {
                 "future" => Obj::Fut(trait_obj!(ScriptFut(sh.clone()) as Future)),
                 "stream" => Obj::Stream(trait_obj!(ScriptStream(sh.clone()) as Stream)),
